@@ -11,6 +11,7 @@ import (
 	"fmt"
 	"os"
 	"time"
+	"verif/internal/ev"
 
 	sdk "github.com/cosmos/cosmos-sdk/types"
 
@@ -181,7 +182,7 @@ func clients() {
 
 // ethPow: a main-net ETH client (chain id 1): the update runs the real ethash verification.
 func ethPow() {
-	bz, err := os.ReadFile("/repo/x/xibc/clients/light-clients/eth/types/testdata/update_headers.json")
+	bz, err := os.ReadFile(ev.Repo() + "/x/xibc/clients/light-clients/eth/types/testdata/update_headers.json")
 	if err != nil {
 		panic(err)
 	}
